@@ -105,7 +105,10 @@ def run(ctx):
     for h, nm, ops, what in expect:
         na += 1
         got = found.get((h, nm), set())
-        okv = any(o in ops for o, role in got)
+        # a comparison and its negation mark the same decision boundary (the CFG records the
+        # condition as written, `!(x > t)` and `x <= t` are the same guard)
+        NEGOP = {'<': '>=', '<=': '>', '>': '<=', '>=': '<', '==': '!=', '!=': '=='}
+        okv = any(o in ops or NEGOP[o] in ops for o, role in got)
         key = 'R14a:%s:%s' % (h, nm)
         if okv:
             ctx.ok('R14a', key, what, f)
